@@ -362,7 +362,7 @@ func zoomTags(kind string, h1, v1, h2, v2 int64) []string {
 }
 
 func init() {
-	Scale["C09"] = 9000
+	Scale["C09"] = 8000
 	Registry["C09"] = func(r *run.Runner, g *Gen, n int) {
 		MathOracles(r)
 		r.Register(fnNesting(), fnLadder(), fnInOut(), fnMergeDesc())
